@@ -9,6 +9,10 @@
                          message written under one lock — one atomic step)
     ack id seq ids       the receive loop's msgs_ack reaches the wire
     recv mid seq m       the receive loop processes a server message
+    plain mid m          a PLAIN-TEXT frame (auth_key_id 0) arrives on the connection: the machine describes a
+                         session that works under its auth key (`m.encrypted`; every trace is one of a resumed
+                         session), where such a frame cannot come from the server — anybody on the path can
+                         write one. `MTProto.readMsg` refuses it: a warning, nothing else, whatever it carries
     deliver c v          a call returns to its caller
     store s              the session is saved
 
@@ -60,6 +64,7 @@ inductive Ev where
   | send (c id seq : Nat) (salt : Int)
   | ack (id seq : Nat) (ids : List Nat)
   | recv (mid seq : Nat) (m : Msg)
+  | plain (mid : Nat) (m : Msg)             -- an unencrypted frame carrying `m` (keyed session: refused by `readMsg`)
   | deliver (c : Nat) (v : String)
   | store (s : Int)
   | ackLost (ids : List Nat)                -- environment fault: the write of the acknowledgement naming ids failed
@@ -180,6 +185,9 @@ def step (s : St) : Ev → Option St
                     acked := ids ++ s.acked, wire := (id, seq) :: s.wire }
     else none
   | .recv mid seq m => some (process 0 s mid seq m)
+  -- `readMsg`: "unencrypted message in an encrypted session" — the receive loop reports the error and reads on.
+  -- The content is never looked at: not decoded, not dispatched, not acknowledged
+  | .plain _ _ => some (warnStep s)
   | .deliver c v =>
     match s.owedDeliver.find? (fun e => e.1 == c) with
     | some (c', rid, v') =>
